@@ -38,7 +38,9 @@ def alt_match(impl, model):
     return re.fullmatch(rx, impl) is not None
 
 
-def run_harness(ctx, test_regex, out_dir, env_extra=None, timeout=1500):
+def run_harness(ctx, test_regex, out_dir, env_extra=None, timeout=None):
+    if timeout is None:
+        timeout = 2400 if ctx.tier == "thorough" else 420
     env = dict(os.environ, VERIF_OUT=out_dir, VERIF_SEED=str(ctx.seed), VERIF_TIER=ctx.tier)
     if ctx.replay:
         env["VERIF_REPLAY"] = ctx.replay
@@ -219,6 +221,36 @@ FINDMETHOD = ops_family("findmethod", "^TestPureFindMethod$", ["findmethod"],
                         rule="findMethod on a descriptor with duplicate unary/stream names; non-trivial = resolved names")
 
 
+def _closeerr_monitor(op, im):
+    """C04: Done() closed, Err() nil after a clean close and the cause otherwise, later RPCs fail at once."""
+    k = dict(a.split("=", 1) for a in op.split()[1:] if "=" in a)
+    r = dict(a.split("=", 1) for a in im.split() if "=" in a)
+    if im.startswith("start-failed"):
+        return None
+    if r.get("done") != "closed":
+        return "done-not-closed"
+    want = {"close": "nil", "cancel": "status:Canceled", "deadline": "status:DeadlineExceeded", "server-stop": "status:Unavailable"}[k["cause"]]
+    if k["cause"] == "close" and r.get("err") != "nil":
+        return "err-not-nil-after-clean-close"
+    if k["cause"] != "close" and r.get("err") == "nil":
+        return "err-nil-after-failure"
+    if r.get("err") != want:
+        return "err-wrong-cause"
+    if r.get("late") != "fails":
+        return "rpc-after-termination-does-not-fail"
+    if "rpc" in r:
+        return "rpc-fails-on-open-tunnel"
+    return None
+
+
+CLOSEERR = ops_family("closeerr", "^TestW2CloseErr$", ["closeerr"], monitor=_closeerr_monitor,
+                      nontrivial=lambda op, im, mo: "cause=close" not in op,
+                      rule="forward tunnels over real grpc-go (bufconn): Close / cancel / deadline of the opening context / server stop, with and "
+                           "without a delay at the yield point inside tunnelChannel.close and with or without a prior RPC; Done(), Err() and a late RPC "
+                           "compared with the client endpoint model (Cli.close / carrierEnds / newStream)",
+                      n_quick=40, n_thorough=400)
+
+
 # ---------------------------------------------------------------- C05 / C06: hook-stepped flow control
 
 def _flow_class(op, im, mo):
@@ -243,6 +275,8 @@ def _flow_monitor(op, im):
                 return "flow-" + k
     if "ovr=1" in im:
         return "flow-overrun"
+    if im.startswith("RECEIVER-LOCK-HELD"):
+        return "receiver-lock-held-across-callback"
     return None
 
 
@@ -274,6 +308,8 @@ import monitors as MON
 def _proj(prop, line):
     """The property's view of an observation line (DESIGN 4.3): a change that
     breaks one property should not light up the others."""
+    if prop != "C14":
+        line = re.sub(r" G=\d+,\d+,\d+", "", line)      # the goroutine census is C14's business
     o = MON.parse_obs(line)
     if o is None:
         return line
@@ -614,10 +650,14 @@ PROPS = {
         "assumptions": ["the negotiate header is exchanged by grpc-go metadata as the handlers expect (exercised in the W2 interop family)"],
     },
     "C02": {
-        "lean_targets": ["Proofs.Props.C07"],
-        "prop_files": [],
+        "lean_targets": ["Proofs.Props.C02"],
+        "prop_files": ["Proofs/Props/C02.lean"],
         "families": [META("C02"), UTF8, W1("C02"), CWORLD("C02"), SWORLD("C02"), race_family("C02")],
         "needs_race": True,
+        "trusted_base": ["L-frame endpoint models (status / header / trailer handling), Metadata.lean (UTF-8 validity, toProto/fromProto as identity on encodable metadata)",
+                         "real grpc-go on bufconn for the metadata world (TestW2Meta), Go race detector for the publication order of trailers (D4)"],
+        "assumptions": ["protobuf string fields reject exactly invalid UTF-8 (checked against proto.Marshal by TestPureUTF8 on every run)",
+                        "the order 'trailers written, then terminal result published' inside finishStream is below the model's granularity: checked by the race stress (ok_without_trailers counter, race reports) and the C15 publication row"],
     },
     "C12": {
         "lean_targets": ["Proofs.Props.C12"],
@@ -635,9 +675,31 @@ PROPS = {
         "assumptions": ["as C08", "bounded transport buffering (finite K) is represented by the loop-idle observation B=1 of the harness, not by a theorem yet"],
     },
     "C04": {
-        "lean_targets": ["Proofs.Props.C09"],
-        "prop_files": [],
-        "families": [W1("C04"), LIFECYCLE("C04"), CWORLD("C04")],
+        "lean_targets": ["Proofs.Props.C04"],
+        "prop_files": ["Proofs/Props/C04.lean"],
+        "families": [W1("C04"), LIFECYCLE("C04"), CWORLD("C04"), SWORLD("C04"), CLOSEERR],
+        "trusted_base": ["L-frame endpoint models: Cli.close / carrierEnds and Srv.serveReturns are the models of tunnelChannel.close and of serve's return",
+                         "lifecycle world (real grpc-go on bufconn) for Stop / GracefulStop / carrier loss"],
+        "assumptions": ["released goroutines are scheduled and exit (Go runtime); witnessed per run by the goroutine census of the harness",
+                        "revision zero: a receive loop blocked on a full per-stream channel is outside the step-exact model (UNSUPPORTED lines; open finding D10)"],
+    },
+    "C13": {
+        "lean_targets": ["Proofs.Props.C13"],
+        "prop_files": ["Proofs/Props/C13.lean"],
+        "families": [W1("C13"), SWORLD("C13"), CWORLD("C13"), PUMP, SENDALL],
+        "side_conditions": ["Proofs.Facts.chunkMax_eq", "Proofs.Facts.settings_stream_id"],
+        "trusted_base": ["L-frame endpoint models and Framing.lean; the wire grammar monitors ServerWire / ClientWire (checklib/monitors.py) on the real frames"],
+        "assumptions": ["handlers and callers follow the gRPC contract where the theorems say so (one SendMsg at a time, no SendMsg after CloseSend, unary reply is the handler's last call)",
+                        "frames are observed after proto.Marshal/Unmarshal in the harness carrier; protobuf field encoding itself is grpc-go's / protobuf-go's"],
+    },
+    "C14": {
+        "lean_targets": ["Proofs.Props.C14"],
+        "prop_files": ["Proofs/Props/C14.lean"],
+        "families": [W1("C14"), SWORLD("C14"), CWORLD("C14"), REGISTRY("C14"), LIFECYCLE("C14")],
+        "trusted_base": ["L-frame endpoint models (inTable / closed / done bookkeeping), registry model Lifecycle.lean",
+                         "harness census: runtime.Stack filtered on goroutines created by the library; Verif*State table snapshots"],
+        "assumptions": ["goroutines that only perform one carrier Send (close / cancel / settings frames) end when the carrier accepts or fails the Send; the harness carriers never block",
+                        "Go runtime scheduling; memory retained by the garbage collector is outside the model"],
     },
     "C05": {
         "lean_targets": ["Proofs.Props.C05"],
